@@ -292,7 +292,7 @@ fn eval_mutant(
         }
     }
     let ve = verify_entry(kind);
-    let mut judge = |entry: &str, c: &CircV, recs: &mut Vec<Rec>, base: &mut Rec| match c {
+    let judge = |entry: &str, c: &CircV, recs: &mut Vec<Rec>, base: &mut Rec| match c {
         CircV::Panic { entry: e2, msg } => {
             let site = kit::norm_site(msg);
             let ep = if e2 == "run" { format!("{entry}+run") } else { e2.clone() };
